@@ -213,6 +213,9 @@ class Pipe:
             return self.branch(ex, st, rv.disc == 1, yes, lambda p, ex, st: p.start_item(ex, st))
         if k == 'pred':      # consumer predicate (position / any / all / find)
             return self.consume_pred(ex, st, rv)
+        if k == 'find_map':  # the first Some(..) the closure returns
+            if not isinstance(rv, Enum): raise Unsupported('find_map closure result')
+            return self.branch(ex, st, rv.disc == 1, lambda p, ex, st, rv=rv: some(rv.fields['Some'][0]), lambda p, ex, st: p.start_item(ex, st))
         if k == 'each':
             return self.start_item(ex, st)
         if k == 'fold':
@@ -264,6 +267,9 @@ class Pipe:
             self.await_kind = 'pred'
             arg = self.cur if m != 'find' else box(self.cur)
             return self._call(ex, st, self.data, [arg])
+        if m == 'find_map':
+            self.await_kind = 'find_map'
+            return self._call(ex, st, self.data, [self.cur])
         if m == 'for_each':
             self.await_kind = 'each'
             return self._call(ex, st, self.data, [self.cur])
@@ -296,7 +302,7 @@ class Pipe:
 
     def finish(self, ex, st):
         m = self.mode
-        if m in ('next', 'position', 'find'): return none()
+        if m in ('next', 'position', 'find', 'find_map'): return none()
         if m == 'collect': return ListModel(self.out, self.data or 'Vec')
         if m == 'partition_point':
             # std: index of the first element for which the predicate is false, PROVIDED the sequence is partitioned by it
@@ -562,7 +568,7 @@ def it_count(ex, st, callee, args):
     return run_pipe(ex, st, box(it), callee.rsplit('::', 1)[1])
 
 
-@h(r'^<.* as Iterator>::(position|any|all|find|for_each)::<.*>$')
+@h(r'^<.* as Iterator>::(position|any|all|find|find_map|for_each)::<.*>$')
 def it_pred(ex, st, callee, args):
     p = args[0]
     it = ex.deref(p)
